@@ -60,6 +60,7 @@ func c11Files(root string) {
 	w("i.dat", []byte("imagebytes!"))
 	w(".info_i.dat", ref.NewInfoFork("i.dat", "JPEG", "GKON", "").Encode()) // stored type differs from what the extension suggests
 	w("p.bin.incomplete", []byte("partia"))
+	w(".info_p.bin", ref.NewInfoFork("p.bin", "BINA", "hDmp", "partial").Encode()) // the partial upload's stored information fork
 	w("d/inner.txt", []byte("in"))
 	w("dé/in2.txt", []byte("in2")) // a folder whose listed name is not ASCII: everything below it is addressed through Mac Roman path items
 	w("other/q.sit/keep.txt", []byte("k")) // a folder that has the name of a file: moving that file here must fail and change nothing
@@ -250,6 +251,17 @@ func (x *c11World) apply(op string) bool {
 			x.fail("move/request-failed", fmt.Sprintf("%s: %v", op, r))
 		}
 		m.relocate(src, dst, false)
+	case "movepartial":
+		// moving a partial upload (listed under its final name) either carries the partial data and its forks along
+		// or changes nothing
+		src := p[1]
+		if m.exists(src) || !m.exists(src+".incomplete") || !m.isDir(p[2]) {
+			return false
+		}
+		r := x.req(ref.Tx{Type: ref.TMoveFile, Fields: append(pathFields(dirOf(src)), ref.F(ref.FFileName, macRoman(filepath.Base(src))), ref.F(ref.FFileNewPath, pathFields(p[2])[0].Data))})
+		if r != nil && r.Err == 0 {
+			m.relocate(src, join(p[2], filepath.Base(src)), false)
+		}
 	case "movefail", "renamefail":
 		// the destination name is taken by a folder: whatever the reply, nothing may change
 		src := p[1]
@@ -529,6 +541,7 @@ func c11Alphabet() []string {
 		a = append(a, "rename|"+d+"|dd", "move|"+d+"|e", "move|"+d+"|d", "del|"+d, "comment|"+d)
 	}
 	a = append(a, "rename|a.txt|my.incomplete.txt", "mkdir|x.incomplete", "rename|e/a.txt|pic.jpg", "comment|my.incomplete.txt", "del|my.incomplete.txt")
+	a = append(a, "movepartial|p.bin|d", "movepartial|p.bin|e")
 	a = append(a, "del|p.bin", "mkdir|dé/new", "mkdir|dé/in2.txt", "del|dé/in2.txt", "rename|dé/in2.txt|r2.txt", "move|a.txt|dé", "move|dé/in2.txt|e", "comment|dé/in2.txt", "alias|a.txt|dé", "rename|dé|dd", "move|dé|e", "del|dé", "mkdir|zé/sub")
 	a = append(a, "mkdir|new", "mkdir|a.txt", "mkdir|d", "mkdir|d/new", "mkdir|zé", "alias|a.txt|e", "alias|d|e", "alias|q.sit|d",
 		"rename|n1.txt|a.zip", "rename|a.txt|a.zip", "rename|i.dat|i.txt",
